@@ -798,6 +798,147 @@ def extract_macro(repo):
         raise ExtractError('contains_component: unexpected body %r' % body)
     return '\n'.join(out) + '\n'
 
+
+# ----------------------------------------------------------------------------- C18: templates and type tables
+
+def macro_args(src, name):
+    """Contents of every `name!( ... )` invocation (balanced parentheses)."""
+    out = []
+    for m in re.finditer(r'\b' + name + r'!\s*\(', src):
+        i = m.end() - 1
+        depth = 0
+        j = i
+        while j < len(src):
+            ch = src[j]
+            if ch == '"':
+                k = j + 1
+                while src[k] != '"':
+                    k += 2 if src[k] == '\\' else 1
+                j = k
+            elif ch == '(':
+                depth += 1
+            elif ch == ')':
+                depth -= 1
+                if depth == 0:
+                    break
+            j += 1
+        out.append(src[i + 1:j])
+    return out
+
+
+def coq_string(x):
+    return '"%s"' % x.replace('"', '""')
+
+
+def parse_type(t):
+    """A Rust type of the few shapes the tables use -> Gallina [rty] term."""
+    t = t.strip()
+    prim = {'u32', 'u8', 'usize', 'bool', 'NonZeroU32'}
+    if t in prim:
+        return 'TPrim'
+    m = re.fullmatch(r'PhantomData<fn\(\) -> (\w+)>', t)
+    if m:
+        return 'TPhantomFn'
+    for wrap, con in (('RefCell', 'TRefCell'), ('DataPtr', 'TDataPtr'), ('Vec', 'TVec')):
+        m = re.fullmatch(wrap + r'<(.+)>', t)
+        if m:
+            return '(%s %s)' % (con, parse_type(m.group(1)))
+    m = re.fullmatch(r'(Entity|EntityDirect)<A>', t)
+    if m:
+        return '(TStruct %s)' % coq_string(m.group(1))
+    if re.fullmatch(r'T~I', t):
+        return 'TComp'
+    if re.fullmatch(r'[A-Z]\w*', t):
+        return '(TStruct %s)' % coq_string(t)
+    raise ExtractError('type table: cannot parse type %r' % t)
+
+
+def struct_fields(src, pattern, what):
+    m = re.search(pattern, src, re.S)
+    if not m:
+        raise ExtractError('type table: struct %s not found' % what)
+    body = m.group(1)
+    body = re.sub(r'#\((\w[\w~]*\s*:\s*[^;]*?),\)\*', r'\1,', body)   # seq!-repeated field: one representative
+    if '{' in m.group(0)[:m.group(0).find(body)]:
+        fields = []
+        for f in re.split(r',\s*(?![^<]*>)', re.sub(r'#\[[^\]]*\]', '', body)):
+            f = f.strip()
+            if not f:
+                continue
+            mm = re.fullmatch(r'(?:pub(?:\([a-z]+\))?\s+)?(#\()?(\w[\w~]*)\s*:\s*(.+?)(,\)\*)?', f, re.S)
+            if not mm:
+                raise ExtractError('type table: cannot parse field %r of %s' % (f, what))
+            fields.append(parse_type(norm(mm.group(3))))
+        return fields
+    return [parse_type(norm(x)) for x in body.split(',') if x.strip()]
+
+
+def extract_tokens(repo):
+    gen = ''
+    for fn in ('world.rs', 'query.rs', 'cfg.rs', 'util.rs'):
+        gen += strip_comments(open(os.path.join(repo, 'macros/src/generate', fn)).read()) + '\n'
+    idents = set()
+    for body in macro_args(gen, 'quote') + [b.split('=>', 1)[1] if '=>' in b else b for b in macro_args(gen, 'quote_spanned')]:
+        body = re.sub(r'"(?:[^"\\]|\\.)*"', ' ', body)
+        for m in re.finditer(r'(#?)\b([A-Za-z_][A-Za-z0-9_]*)\b', body):
+            if m.group(1) != '#':
+                idents.add(m.group(2))
+    patterns = set()
+    for body in macro_args(gen, 'format_ident'):
+        m = re.match(r'\s*"((?:[^"\\]|\\.)*)"', body)
+        if not m:
+            raise ExtractError('format_ident!: pattern is not a string literal: %r' % body[:60])
+        patterns.add(m.group(1))
+    # identifiers built any other way would escape the grammar below
+    if re.search(r'\bIdent::new\(', gen.replace('Ident::new(&to_snake_str(&ident.to_string()), ident.span())', '')):
+        raise ExtractError('generate/: Ident::new outside to_snake_ident')
+    out = [HEADER % 'macros/src/generate/*.rs, src/entity.rs, src/version.rs, src/archetype/slot.rs, src/index.rs, src/archetype/storage.rs, src/archetype/iter.rs',
+           'From Coq Require Import String List.\nImport ListNotations.\nOpen Scope string_scope.\n']
+    out.append('(* every identifier token that occurs literally in a quote!/quote_spanned! template of the generators *)')
+    out.append('Definition template_idents : list string := [%s].' % '; '.join(coq_string(x) for x in sorted(idents)))
+    out.append('(* every format_ident! pattern ({} = a hole filled from user names, counters or the input hash) *)')
+    out.append('Definition ident_patterns : list string := [%s].' % '; '.join(coq_string(x) for x in sorted(patterns)))
+
+    # ---- type tables
+    ent = strip_comments(open(os.path.join(repo, 'src/entity.rs')).read())
+    ver = strip_comments(open(os.path.join(repo, 'src/version.rs')).read())
+    slot = strip_comments(open(os.path.join(repo, 'src/archetype/slot.rs')).read())
+    idx = strip_comments(open(os.path.join(repo, 'src/index.rs')).read())
+    sto = strip_comments(open(os.path.join(repo, 'src/archetype/storage.rs')).read())
+    itr = strip_comments(open(os.path.join(repo, 'src/archetype/iter.rs')).read())
+    out.append('Inductive rty := TPrim | TComp | TPhantomFn | TRefCell (t : rty) | TDataPtr (t : rty) | TVec (t : rty) | TStruct (name : string).')
+    table = [
+        ('Entity', struct_fields(ent, r'pub struct Entity<A: Archetype> \{(.*?)\}', 'Entity')),
+        ('EntityDirect', struct_fields(ent, r'pub struct EntityDirect<A: Archetype> \{(.*?)\}', 'EntityDirect')),
+        ('EntityAny', struct_fields(ent, r'pub struct EntityAny \{(.*?)\}', 'EntityAny')),
+        ('EntityDirectAny', struct_fields(ent, r'pub struct EntityDirectAny \{(.*?)\}', 'EntityDirectAny')),
+        ('SlotVersion', struct_fields(ver, r'pub struct SlotVersion \{(.*?)\}', 'SlotVersion')),
+        ('ArchetypeVersion', struct_fields(ver, r'pub struct ArchetypeVersion \{(.*?)\}', 'ArchetypeVersion')),
+        ('SlotIndex', struct_fields(slot, r'pub\(crate\) struct SlotIndex\((.*?)\);', 'SlotIndex')),
+        ('Slot', struct_fields(slot, r'pub struct Slot \{(.*?)\}', 'Slot')),
+        ('TrimmedIndex', struct_fields(idx, r'pub\(crate\) struct TrimmedIndex\((.*?)\);', 'TrimmedIndex')),
+        ('Storage', struct_fields(sto, r'pub struct \$name<A: Archetype, #\(T~I,\)\*> \{(.*?)\n\s*\}', 'StorageN')),
+    ]
+    out.append('Definition type_table : list (string * list rty) := [%s].' % ';\n  '.join(
+        '(%s, [%s])' % (coq_string(n), '; '.join(fs)) for n, fs in table))
+    # DataPtr: raw NonNull, with explicit unsafe impls bounded on T
+    if not re.search(r'pub struct DataPtr<T>\(NonNull<MaybeUninit<T>>\);', sto):
+        raise ExtractError('DataPtr: unexpected definition')
+    snd = bool(re.search(r'unsafe impl<T> Send for DataPtr<T> where T: Send \{\}', sto))
+    syn = bool(re.search(r'unsafe impl<T> Sync for DataPtr<T> where T: Sync \{\}', sto))
+    if len(re.findall(r'unsafe impl', sto + ent + ver + slot + idx + itr)) != int(snd) + int(syn):
+        raise ExtractError('unexpected `unsafe impl` in the runtime crate')
+    out.append('Definition dataptr_send_if_t_send : bool := %s.' % ('true' if snd else 'false'))
+    out.append('Definition dataptr_sync_if_t_sync : bool := %s.' % ('true' if syn else 'false'))
+    # Copy: the four handle types
+    cp = (len(re.findall(r'#\[derive\(Clone, Copy, Eq, PartialEq\)\]\s*pub struct (EntityAny|EntityDirectAny)', ent)) == 2
+          and 'impl<A: Archetype> Copy for Entity<A> {}' in ent and 'impl<A: Archetype> Copy for EntityDirect<A> {}' in ent)
+    out.append('Definition handles_are_copy : bool := %s.' % ('true' if cp else 'false'))
+    # iterators hold raw pointers plus PhantomData<&'a mut A>: they borrow the archetype mutably for 'a
+    ph = len(re.findall(r"phantom: std::marker::PhantomData<&'a mut A>", itr)) == 2
+    out.append('Definition iterators_borrow_archetype_mutably : bool := %s.' % ('true' if ph else 'false'))
+    return '\n'.join(out) + '\n'
+
 def main():
     repo, outdir = sys.argv[1], sys.argv[2]
     os.makedirs(outdir, exist_ok=True)
@@ -807,6 +948,7 @@ def main():
         'ExtrStorage.v': extract_storage,
         'ExtrQuery.v': extract_query,
         'ExtrMacro.v': extract_macro,
+        'ExtrTokens.v': extract_tokens,
     }
     failed = False
     for name, fn in files.items():
